@@ -2,36 +2,50 @@
 (* C43 - waiting for schema agreement.                                        *)
 (*                                                                            *)
 (* Code anchors (cassandra/cluster.py):                                       *)
-(*   ControlConnection.wait_for_schema_agreement (:4072-4134): one Poll       *)
-(*     action = one iteration of the `while elapsed < total_timeout` loop      *)
-(*     (the two schema_version queries, _get_schema_mismatches, sleep 0.2 s)   *)
-(*   ControlConnection._get_schema_mismatches (:4136-4158)                    *)
-(*   ResponseFuture._set_result, RESULT_KIND_SCHEMA_CHANGE (:4735-4742) and   *)
-(*     refresh_schema_and_set_result (:4349-4358) -> ControlConnection.       *)
-(*     _refresh_schema (:3829-3847): action SetResult                         *)
+(*   ControlConnection.wait_for_schema_agreement: the polling loop; one Poll  *)
+(*     action = one round trip of the two schema_version queries              *)
+(*     (system.peers / system.local) and _get_schema_mismatches on the answer *)
+(*   ControlConnection._get_schema_mismatches                                 *)
+(*   ResponseFuture._set_result (RESULT_KIND_SCHEMA_CHANGE) ->                *)
+(*     refresh_schema_and_set_result -> ControlConnection._refresh_schema:    *)
+(*     Finish in the "ddl_*" modes                                            *)
 (*                                                                            *)
-(* Time is counted in tenths of a second since the wait began; the loop       *)
-(* sleeps Period = 2 tenths after a disagreeing poll.  Waits are odd numbers  *)
-(* of tenths so that no poll falls exactly on the deadline (the statement     *)
-(* does not say what happens there).                                          *)
+(* What C43 fixes is WHAT the wait reports, not how it schedules its polls:   *)
+(*   (a) agreement is reported exactly when the versions reported by the      *)
+(*       control node and by every known peer not marked down form a single   *)
+(*       version: the snapshot polled last is uniform, and a uniform snapshot *)
+(*       is never polled without agreement being reported next;               *)
+(*   (b) otherwise it keeps polling until the configured wait has elapsed:    *)
+(*       "no agreement" is reported only when no polled snapshot was uniform, *)
+(*       not before the wait has elapsed, and the last poll is not earlier    *)
+(*       than the wait minus one poll gap;                                    *)
+(*   (c) a schema-changing request's result records that outcome.             *)
+(* The number and the instants of the polls are an environment choice here:   *)
+(* ANY schedule whose first poll comes within MaxGap of the start and whose   *)
+(* consecutive polls are at most MaxGap apart is a behaviour of this          *)
+(* specification (MaxGap = the driver's pause between polls, 0.2 s, plus one  *)
+(* query round trip, plus one tick of discretisation slack).  Each poll sees  *)
+(* an arbitrary snapshot: the cluster changes as it likes between polls.      *)
+(* Time is counted in ticks (the harness uses 0.05 s) since the wait began.   *)
+(*                                                                            *)
 (* A snapshot is what one poll sees: the schema version the control node      *)
-(* reports for itself (system.local), the version in each system.peers row,   *)
-(* and Host.is_up of every peer the metadata knows (up / down / none = not    *)
-(* yet determined).  UPeers have a peers row but are unknown to the metadata. *)
+(* reports for itself, the version in each system.peers row, and Host.is_up   *)
+(* of every peer the metadata knows (up / down / none = undetermined).         *)
+(* UPeers have a peers row but are unknown to the metadata.                   *)
 (* mode: "direct" = the application calls wait_for_schema_agreement;          *)
 (* "ddl_meta" / "ddl_nometa" = the wait is made on behalf of a                *)
-(* schema-changing request (schema metadata enabled / disabled) and the       *)
-(* verdict is recorded in ResponseFuture.is_schema_agreed.                    *)
+(* schema-changing request (schema metadata enabled / disabled) and its       *)
+(* outcome is ResponseFuture.is_schema_agreed.                                *)
 EXTENDS Naturals, FiniteSets, TLC
 
 CONSTANTS KPeers,      \* peers known to the cluster metadata
           UPeers,      \* peers the metadata does not know
           Vers,        \* schema versions peers can report
           LocalVers,   \* schema versions the control node can report
-          Waits,       \* max_schema_agreement_wait values, in tenths (odd)
-          Modes        \* subset of {"direct", "ddl_meta", "ddl_nometa"}
+          Waits,       \* max_schema_agreement_wait values, in ticks
+          Modes,       \* subset of {"direct", "ddl_meta", "ddl_nometa"}
+          MaxGap       \* largest admissible distance between two polls, in ticks
 
-Period == 2
 HostStates == {"up", "down", "none"}
 Snaps == [local : LocalVers, pv : [KPeers \cup UPeers -> Vers], st : [KPeers -> HostStates]]
 NoSnap == [local |-> "-"]
@@ -41,83 +55,91 @@ LiveVersions(s) == {s.local} \cup {s.pv[p] : p \in {q \in KPeers : s.st[q] # "do
 Agrees(s) == Cardinality(LiveVersions(s)) = 1
 
 VARIABLES wait, mode,   \* configuration
-          k,            \* polls made so far
-          t,            \* elapsed time (tenths) as the loop sees it
-          at,           \* time at which the last poll was made
+          polled,       \* at least one poll was made
+          last,         \* instant of the last poll
           snap,         \* what the last poll saw
-          status,       \* "polling" | "agreed" | "timeout"
-          verdict,      \* "unset" | "yes" | "no": what wait_for_schema_agreement returned
-          future,       \* "n/a" | "unset" | "yes" | "no": ResponseFuture.is_schema_agreed once the result is set
+          sawUniform,   \* some poll saw a uniform snapshot (history)
+          status,       \* "polling" | "agreed" (a uniform snapshot was just polled) | "done"
+          verdict,      \* "unset" | "yes" | "no": the reported outcome
+          endAt,        \* instant at which the outcome was reported
+          future,       \* "n/a" | "unset" | "yes" | "no": ResponseFuture.is_schema_agreed
           act
-vars == <<wait, mode, k, t, at, snap, status, verdict, future, act>>
+vars == <<wait, mode, polled, last, snap, sawUniform, status, verdict, endAt, future, act>>
+
+Horizon == CHOOSE m \in {w + MaxGap : w \in Waits} : \A w \in Waits : w + MaxGap <= m
 
 Init == /\ wait \in Waits
         /\ mode \in Modes
-        /\ k = 0 /\ t = 0 /\ at = 0
+        /\ polled = FALSE /\ last = 0
         /\ snap = NoSnap
+        /\ sawUniform = FALSE
         /\ status = "polling"
-        /\ verdict = "unset"
+        /\ verdict = "unset" /\ endAt = 0
         /\ future = IF mode = "direct" THEN "n/a" ELSE "unset"
         /\ act = [name |-> "Init"]
 
-Poll(s) ==
+\* one round trip of the two queries at instant `at`, seeing snapshot s
+Poll(s, at) ==
     /\ status = "polling"
-    /\ t < wait                                  \* while elapsed < total_timeout
+    /\ at >= (IF polled THEN last + 1 ELSE 0)
+    /\ at <= last + MaxGap                       \* keeps polling: no gap longer than MaxGap (from the start, too)
+    /\ polled' = TRUE
+    /\ last' = at
     /\ snap' = s
-    /\ k' = k + 1
-    /\ at' = t
-    /\ IF Agrees(s)
-       THEN /\ status' = "agreed"                \* schema_mismatches is None: return True
-            /\ verdict' = "yes"
-            /\ t' = t
-       ELSE /\ t' = t + Period                   \* sleep(0.2); elapsed = now - start
-            /\ IF t + Period < wait
-               THEN status' = "polling" /\ verdict' = verdict
-               ELSE status' = "timeout" /\ verdict' = "no"       \* loop exits: return False
-    /\ act' = [name |-> "Poll", snap |-> s]
-    /\ UNCHANGED <<wait, mode, future>>
+    /\ sawUniform' = (sawUniform \/ Agrees(s))
+    /\ status' = IF Agrees(s) THEN "agreed" ELSE "polling"
+    /\ act' = [name |-> "Poll", snap |-> s, at |-> at]
+    /\ UNCHANGED <<wait, mode, verdict, endAt, future>>
 
-\* refresh_schema_and_set_result: the request's result records whether agreement was reached
-SetResult ==
-    /\ status \in {"agreed", "timeout"}
-    /\ future = "unset"
-    /\ future' = verdict
-    /\ act' = [name |-> "SetResult"]
-    /\ UNCHANGED <<wait, mode, k, t, at, snap, status, verdict>>
+\* the outcome is reported: wait_for_schema_agreement returns v ("direct"), or refresh_schema_and_set_result stores
+\* what it returned in the request's future ("ddl_*")
+Finish(v, at) ==
+    /\ at >= last
+    /\ \/ v = "yes" /\ status = "agreed"                          \* (a)
+       \/ /\ v = "no" /\ status = "polling" /\ polled             \* (b)
+          /\ at >= wait                                           \*     not before the wait has elapsed
+          /\ last + MaxGap >= wait                                \*     and it polled until then
+    /\ status' = "done"
+    /\ verdict' = v
+    /\ endAt' = at
+    /\ future' = IF mode = "direct" THEN "n/a" ELSE v             \* (c)
+    /\ act' = [name |-> "Finish", v |-> v, at |-> at]
+    /\ UNCHANGED <<wait, mode, polled, last, snap, sawUniform>>
 
-Next == (\E s \in Snaps : Poll(s)) \/ SetResult
+Next == \/ \E s \in Snaps, at \in 0..Horizon : Poll(s, at)
+        \/ \E v \in {"yes", "no"}, at \in 0..Horizon : Finish(v, at)
 Spec == Init /\ [][Next]_vars /\ WF_vars(Next)
 
 -----------------------------------------------------------------------------
-TypeOK == /\ status \in {"polling", "agreed", "timeout"}
+TypeOK == /\ status \in {"polling", "agreed", "done"}
           /\ verdict \in {"unset", "yes", "no"}
           /\ future \in {"n/a", "unset", "yes", "no"}
 
-\* reports agreement exactly when the live versions form a single version ...
-AgreedIffSingle == /\ status = "agreed" => Agrees(snap) /\ verdict = "yes"
-                   /\ status = "polling" /\ k > 0 => ~Agrees(snap) /\ verdict = "unset"
-                   /\ status = "timeout" => ~Agrees(snap) /\ verdict = "no"
+\* (a) agreement is reported exactly when the live versions form a single version
+AgreementOnlyWhenUniform == verdict = "yes" => polled /\ Agrees(snap)
+UniformIsReported == sawUniform => status \in {"agreed", "done"} /\ verdict # "no" /\ Agrees(snap)
 
-\* ... keeps polling every Period until the configured wait has elapsed otherwise
-PollTimes == k > 0 => at = Period * (k - 1)
-KeepsPolling == /\ status = "timeout" => at < wait /\ at + Period >= wait
-                /\ status = "polling" => t < wait
-                /\ k > 0 => at < wait
+\* (b) otherwise it keeps polling until the configured wait has elapsed
+NoAgreementOnlyAfterWait == verdict = "no" => /\ ~sawUniform
+                                              /\ endAt >= wait
+                                              /\ last + MaxGap >= wait
+KeepsPolling == polled => last <= Horizon
 
-\* ... and a schema-changing request's result records the verdict
-FutureRecords == /\ future \in {"yes", "no"} => future = verdict
+\* (c) the schema-changing request's result records the outcome
+FutureRecords == /\ status = "done" /\ mode # "direct" => future = verdict
+                 /\ status # "done" => future \in {"n/a", "unset"}
                  /\ mode = "direct" <=> future = "n/a"
 
-Terminates == <>(status # "polling" /\ future # "unset")
+Terminates == <>(status = "done")
 
 \* vacuity witnesses (negated reachability)
-Witness_AgreeLater     == ~(status = "agreed" /\ k >= 2)
-Witness_DownIgnored    == ~(status = "agreed" /\ \E p \in KPeers : snap.st[p] = "down" /\ snap.pv[p] # snap.local)
-Witness_UnknownIgnored == ~(status = "agreed" /\ \E p \in UPeers : snap.pv[p] # snap.local)
-Witness_NoneCounts     == ~(k > 0 /\ ~Agrees(snap) /\ \A p \in KPeers : snap.st[p] = "up" => snap.pv[p] = snap.local)
-Witness_Timeout        == ~(status = "timeout" /\ k >= 3)
-Witness_FutureFalse    == ~(future = "no")
-Witness_FutureTrueNoMeta == ~(future = "yes" /\ mode = "ddl_nometa")
+Witness_AgreeLater     == ~(verdict = "yes" /\ last >= 2)
+Witness_DownIgnored    == ~(verdict = "yes" /\ \E p \in KPeers : snap.st[p] = "down" /\ snap.pv[p] # snap.local)
+Witness_UnknownIgnored == ~(verdict = "yes" /\ \E p \in UPeers : snap.pv[p] # snap.local)
+Witness_NoneCounts     == ~(polled /\ status = "polling" /\ \A p \in KPeers : snap.st[p] = "up" => snap.pv[p] = snap.local)
+Witness_Timeout        == ~(verdict = "no")
+Witness_DenseSchedule  == ~(verdict = "no" /\ endAt = wait)
+Witness_FutureYesNoMeta == ~(future = "yes" /\ mode = "ddl_nometa")
 
 ASSUME TLCSet(2, {})
 WitnessesHere == (IF ~Witness_AgreeLater THEN {"Witness_AgreeLater"} ELSE {})
@@ -125,8 +147,8 @@ WitnessesHere == (IF ~Witness_AgreeLater THEN {"Witness_AgreeLater"} ELSE {})
             \cup (IF ~Witness_UnknownIgnored THEN {"Witness_UnknownIgnored"} ELSE {})
             \cup (IF ~Witness_NoneCounts THEN {"Witness_NoneCounts"} ELSE {})
             \cup (IF ~Witness_Timeout THEN {"Witness_Timeout"} ELSE {})
-            \cup (IF ~Witness_FutureFalse THEN {"Witness_FutureFalse"} ELSE {})
-            \cup (IF ~Witness_FutureTrueNoMeta THEN {"Witness_FutureTrueNoMeta"} ELSE {})
+            \cup (IF ~Witness_DenseSchedule THEN {"Witness_DenseSchedule"} ELSE {})
+            \cup (IF ~Witness_FutureYesNoMeta THEN {"Witness_FutureYesNoMeta"} ELSE {})
 RecordWitnesses == TLCSet(2, TLCGet(2) \cup WitnessesHere)
 PrintWitnesses == PrintT(<<"WITNESSES", TLCGet(2)>>)
 =============================================================================
